@@ -325,6 +325,27 @@ fn family_cfg(rng: &mut Rng, fam: u64) -> (Cfg, String, String) {
                 keys: ("default".into(), "/".into()), codecs_json: json, chain_desc: format!("shard[2x2;{};le;shard[1x2;{};le;bytes]]", loc, loc2), sharded: true, path: "/a".into(), eff_inner: Some(vec![2, 2]) };
             return (cfg, "none".into(), format!(" isz=32 nchunks=2 idx={}:little icrc=0 isum=0 nested=1", loc));
         }
+        6 => { // a variable-length data type inside a shard (the variable branches of the shard decoders have their own bounds checks)
+            let want = if rng.chance(1, 2) { "string" } else { "bytes" };
+            let dt = dts.iter().find(|d| d.name == want).unwrap().clone();
+            let fill = dt.fills[rng.below(2) as usize].clone();
+            let vl = match rng.below(3) {
+                0 => "{\"name\":\"zarrs.vlen_v2\"}".to_string(),
+                1 => (if dt.name == "string" { "{\"name\":\"vlen-utf8\"}" } else { "{\"name\":\"vlen-bytes\"}" }).to_string(),
+                _ => "{\"name\":\"zarrs.vlen\",\"configuration\":{\"index_codecs\":[{\"name\":\"bytes\",\"configuration\":{\"endian\":\"little\"}}],\"data_codecs\":[{\"name\":\"bytes\"}],\"index_data_type\":\"uint32\"}}".to_string(),
+            };
+            let inner = vec![1u64, chunk[1]];
+            let n = (chunk[0] / inner[0]) * (chunk[1] / inner[1]);
+            let loc = if rng.chance(1, 2) { "end" } else { "start" };
+            let big = rng.chance(1, 2);
+            let icrc = rng.chance(1, 2);
+            let idx = format!("[{{\"name\":\"bytes\",\"configuration\":{{\"endian\":\"{}\"}}}}{}]", if big { "big" } else { "little" }, if icrc { ",{\"name\":\"crc32c\"}" } else { "" });
+            let json = format!("[{{\"name\":\"sharding_indexed\",\"configuration\":{{\"chunk_shape\":[{},{}],\"codecs\":[{}],\"index_codecs\":{},\"index_location\":\"{}\"}}}}]", inner[0], inner[1], vl, idx, loc);
+            let isz = 16 * n + if icrc { 4 } else { 0 };
+            let cfg = Cfg { dtype: dt.clone(), fill, shape: shape.clone(), grid: vec![(true, vec![chunk[0]]), (true, vec![chunk[1]])], regular_impl: true,
+                keys: ("default".into(), "/".into()), codecs_json: json, chain_desc: format!("shard[{}x{};{};vlen]", inner[0], inner[1], loc), sharded: true, path: "/a".into(), eff_inner: Some(inner.clone()) };
+            return (cfg, "none".into(), format!(" isz={} nchunks={} idx={}:{} icrc={} isum=0 vlen=1", isz, n, loc, if big { "big" } else { "little" }, icrc as u8));
+        }
         0 => { // checksum outermost
             let mut cs = vec![bytes.clone()]; let mut d = vec!["bytes".to_string()];
             if !comp.0.is_empty() { cs.push(comp.0.into()); d.push(comp.1.into()); }
@@ -355,11 +376,11 @@ fn family_cfg(rng: &mut Rng, fam: u64) -> (Cfg, String, String) {
 pub fn generate(tier: &str, seed: u64) -> Vec<String> {
     let mut rng = Rng::new(seed ^ 0xC15);
     let thorough = tier == "thorough";
-    let ncfg = if thorough { 600 } else { 60 };
+    let ncfg = if thorough { 700 } else { 70 };
     let mut out = vec![];
     for k in 0..ncfg {
-        let fam = (k % 6) as u64;
-        let (cfg, prot, extra) = if fam < 4 || fam == 5 { family_cfg(&mut rng, fam) } else { (gen_cfg(&mut rng, Some(k % 2 == 0)), "none".to_string(), String::new()) };
+        let fam = (k % 7) as u64;
+        let (cfg, prot, extra) = if fam < 4 || fam >= 5 { family_cfg(&mut rng, fam) } else { (gen_cfg(&mut rng, Some(k % 2 == 0)), "none".to_string(), String::new()) };
         out.push(cfg.cfg_line("c15", "memory", true, false, &format!(" prot={}{}", prot, extra)));
         // fill the whole array with non-fill data, then a few more writes
         let total: u64 = cfg.shape.iter().product();
@@ -380,7 +401,7 @@ pub fn generate(tier: &str, seed: u64) -> Vec<String> {
             out.push(format!("c15 op multi c={} n={} seed={}", cs, if thorough { 60 } else { 20 }, rng.next() % 1000));
             out.push(format!("c15 op truncate_all c={}{}", cs, if extra.is_empty() { String::new() } else { extra.split(' ').filter(|s| s.starts_with("isz=")).map(|s| format!(" {}", s)).collect::<String>() }));
             out.push(format!("c15 op extend c={} seed={}", cs, rng.next() % 1000));
-            if fam == 2 || fam == 3 || fam == 5 {
+            if fam == 2 || fam == 3 || fam == 5 || fam == 6 {
                 let fields: BTreeMap<&str, &str> = extra.split(' ').filter_map(|kv| kv.split_once('=')).collect();
                 let n: u64 = fields["nchunks"].parse().unwrap();
                 let inner = cfg.eff_inner.clone().unwrap_or_default();
